@@ -86,6 +86,7 @@ func guarded(f func() error) (err error, panicked string) {
 
 type env struct {
 	db     *zenodb.DB
+	leader *zenodb.DB // a cluster leader with the same tables: only its planner is exercised
 	node   *zv.Node
 	ts     *httptest.Server
 	client rpc.Client
@@ -103,6 +104,14 @@ func setup(dir string) (*env, error) {
 		return nil, err
 	}
 	e := &env{db: n.DB, node: n, now: time.Now()}
+	e.leader, err = zenodb.NewDB(&zenodb.DBOpts{Dir: filepath.Join(dir, "leader"), Passthrough: true, ID: 1, NumPartitions: 2,
+		ClusterQueryTimeout: time.Second, Panic: func(interface{}) {}})
+	if err != nil {
+		return nil, err
+	}
+	if err := e.leader.ApplySchema(zv.SchemaOf(tables, opts.Tick())); err != nil {
+		return nil, err
+	}
 	router := mux.NewRouter()
 	if _, err := web.Configure(n.DB, router, &web.Opts{CacheDir: filepath.Join(dir, "webcache")}); err != nil {
 		return nil, err
@@ -139,6 +148,18 @@ func (e *env) doSQL(st *Step) {
 		return
 	}
 	line["plan"] = err == nil
+	// the same text planned by a cluster leader (the distributed planner rewrites the text of
+	// queries it cannot push down); the plan is not executed, there are no followers
+	lerr, lp := guarded(func() error {
+		_, err := e.leader.Query(st.SQL, false, nil, true)
+		return err
+	})
+	if lp != "" {
+		line["panic"], line["where"] = lp, "DB.Query on a cluster leader (distributed planner)"
+		emit(line)
+		return
+	}
+	line["leaderPlan"] = lerr == nil
 	if err == nil && src != nil {
 		rows := 0
 		err, p = guarded(func() error {
